@@ -34,6 +34,8 @@ const (
 	probePoolRenewed
 	probeSubtreeKept
 	probeC11OpOnPart
+	probePoolsInTurn
+	probePoolHandedOver
 )
 
 var probeNames = map[int]string{
@@ -45,6 +47,7 @@ var probeNames = map[int]string{
 	probePoolRenewed: "pool_dropped_and_replaced_while_objects_kept",
 	probeSubtreeKept: "root_dropped_one_statement_kept",
 	probeC11OpOnPart: "operation_applied_to_a_part_of_the_tree",
+	probePoolsInTurn: "objects_taken_from_every_pool_of_a_task_in_turn", probePoolHandedOver: "pools_created_by_one_task_and_used_by_another",
 }
 
 var (
